@@ -13,9 +13,10 @@ from .report import Reporter, verdict, write_evidence, write_replay, VERIF
 class Ctx:
     """Shared, lazily built analyses for one Program."""
 
-    def __init__(self, P):
+    def __init__(self, P, params=None):
         self.P = P
         self._cache = {}
+        self.params = params or {}  # analysis parameters of the deeper (thorough) pass: n_items, big_instances
 
     def get(self, name, builder):
         if name not in self._cache:
@@ -40,12 +41,15 @@ class Ctx:
         return self.get("cg", lambda: CallGraph(self.P, self.types))
 
 
-def run_rules(prop, P, only=None):
+DEEP = {"n_items": 3, "big_instances": True}
+
+
+def run_rules(prop, P, only=None, params=None, rep=None):
     """Run all rules of a property on Program P.  Returns Reporter."""
     from .rules import registry
 
-    rep = Reporter()
-    ctx = Ctx(P)
+    rep = Reporter() if rep is None else rep
+    ctx = Ctx(P, params)
     for rule in registry()[prop]["rules"]:
         name = getattr(rule, "rule_id", rule.__name__)
         if only and name not in only:
@@ -82,8 +86,14 @@ def check_property(prop, tier, root, seed, quiet=False):
         write_evidence(prop, tier, seed, rep, ver, time.time() - t0, reg[prop], root=root)
         return 2
     rep = run_rules(prop, P)
-    ver = verdict(prop, rep)
     extra = {}
+    if tier == "thorough":
+        # second pass with larger symbolic instances: three items per timeline (index/colour/one-each rules see a third
+        # datum), deeper layerings for the stub-chain instance, a two-stub chain for the link rules
+        n1 = len(rep.obs)
+        run_rules(prop, P, params=DEEP, rep=rep)
+        extra["deep_pass"] = {"parameters": DEEP, "additional_obligations": len(rep.obs) - n1}
+    ver = verdict(prop, rep)
     code = ver["code"]
     if tier == "thorough":
         from .selftest import runner
